@@ -3,7 +3,7 @@
 For every directory under seeded/ (or the ones named): in a scratch git worktree of /repo's HEAD (never in
 /repo itself) apply patch.diff, rebuild the harness against that worktree, run the property's quick check and
 expect exit 1 with a VIOLATION line; re-execute the first recorded case twice (`--replay`) and expect the same
-verdict and the same output both times (determinism); undo the patch, rebuild, replay again and expect
+verdict, the same signatures and the same case counts both times (determinism); undo the patch, rebuild, replay again and expect
 "NOT REPRODUCED". Evidence and replays of these runs go to the scratch directory, not to /verif.
 The scratch worktree and its build output are removed at the end.
 """
@@ -72,7 +72,18 @@ def main(argv, chk):
                     p1 = sh("%s %s --replay %s" % (binary, prop, rp), cwd=verif)
                     p2 = sh("%s %s --replay %s" % (binary, prop, rp), cwd=verif)
                     r1, r2 = p1.returncode, p2.returncode
-                    same = p1.stdout == p2.stdout
+                    # the verdict lines carry free text with process ids, inode numbers and timestamps of the scratch
+                    # trees; determinism is judged on what was found: signatures and their case counts
+                    def norm(out):
+                        keep = []
+                        for l in out.splitlines():
+                            l = l.strip()
+                            if l.startswith("REPRODUCED") or l.startswith("also found") or l.startswith("NOT REPRODUCED"):
+                                keep.append(l.split("):")[0])
+                            elif l.startswith("replay of"):
+                                keep.append(l)
+                        return keep
+                    same = norm(p1.stdout) == norm(p2.stdout)
                 row["replay_with_patch"] = [r1, r2]
                 row["replay_deterministic"] = same
                 ok = ok and r1 == 1 and r2 == 1 and same
